@@ -813,12 +813,16 @@ func (e *c03Env) runCase(c *c03Case, corr bool) error {
 	}
 	c.Impl = nil
 	anyBadPlant := planted != "good" || len(c.Faults) > 0
-	for _, op := range c.Ops {
+	for opi, op := range c.Ops {
 		f := strings.Split(op, ":")
 		idb, _ := hex.DecodeString(f[1])
 		var id desync.ChunkID
 		copy(id[:], idb)
 		var zero desync.ChunkID
+		if f[0] != "g" {
+			c.Impl = append(c.Impl, e.consumer(c, store, f, id, opi, verifying))
+			continue
+		}
 		chunk, err := store.GetChunk(id)
 		cls := c03Class(err)
 		res := cls
@@ -928,6 +932,89 @@ func c03Top(n *c03Node) string {
 	return n.T
 }
 
+// ops as the oracle takes them: the read-seeker op carries the index size for the implementation only
+func c03OracleOps(ops []string) []string {
+	out := make([]string, len(ops))
+	for i, op := range ops {
+		f := strings.Split(op, ":")
+		if f[0] == "r" && len(f) == 5 {
+			op = strings.Join(f[:4], ":")
+		}
+		out[i] = op
+	}
+	return out
+}
+
+// consumer runs one consumer of chunks on the real stack:
+//
+//	x:<id>:<size>                         AssembleFile of a one-chunk index   (assemble.go writeChunk)
+//	r:<id>:<nullid>:<nulldata>:<size>     reading a one-chunk index through IndexPos (readseeker.go loadChunk)
+//
+// Result "w:<hex>" (the bytes produced) or "fail".  Predicate: bytes produced through a verifying
+// stack hash to the id of the index row.
+func (e *c03Env) consumer(c *c03Case, store desync.Store, f []string, id desync.ChunkID, opi int, verifying bool) string {
+	flags := uint64(desync.CaFormatExcludeNoDump)
+	if c.Digest != "sha256" {
+		flags |= desync.CaFormatSHA512256
+	}
+	var got []byte
+	res := "fail"
+	switch f[0] {
+	case "x":
+		size, _ := strconv.Atoi(f[2])
+		idx := desync.Index{Index: desync.FormatIndex{FeatureFlags: flags, ChunkSizeMin: 1, ChunkSizeAvg: 64, ChunkSizeMax: 1 << 20},
+			Chunks: []desync.IndexChunk{{ID: id, Start: 0, Size: uint64(size)}}}
+		name := filepath.Join(e.caseDir(), fmt.Sprintf("out%d", opi))
+		if _, err := desync.AssembleFile(context.Background(), name, idx, store, nil, desync.AssembleOptions{N: 1}); err == nil {
+			got, _ = os.ReadFile(name)
+			res = "w:" + vh.Hex(got)
+		}
+		os.Remove(name)
+	case "r":
+		null := vh.UnHex(f[3])
+		size, _ := strconv.Atoi(f[4])
+		idx := desync.Index{Index: desync.FormatIndex{FeatureFlags: flags, ChunkSizeMin: 1, ChunkSizeAvg: 64, ChunkSizeMax: uint64(len(null))},
+			Chunks: []desync.IndexChunk{{ID: id, Start: 0, Size: uint64(size)}}}
+		rs := desync.NewIndexReadSeeker(idx, store)
+		buf := make([]byte, 4096)
+		stuck := 0
+		var err error
+		for err == nil && stuck < 3 {
+			var n int
+			n, err = rs.Read(buf)
+			got = append(got, buf[:n]...)
+			if n == 0 && err == nil {
+				stuck++
+			}
+		}
+		switch {
+		case stuck >= 3:
+			res = "stuck"
+			if verifying {
+				e.r.Fail("predicate", "consumer/readseeker-stuck", "IndexPos.Read keeps returning (0, nil) on "+c.Stack.shape(), c)
+			}
+		case err == io.EOF && len(got) < size:
+			// Read reported end of stream before the indexed length: loadChunk failed with an
+			// error that IS io.EOF (Protocol.RequestChunk after the server went away) and
+			// IndexPos.Read handed it on unchanged; io.Copy / io.ReadAll take that as success.
+			// For the correspondence the observable is loadChunk's outcome (it failed).
+			if verifying {
+				e.r.Fail("predicate", "consumer/readseeker-eof-truncates",
+					fmt.Sprintf("IndexPos.Read returned io.EOF after %d of %d bytes on %s: a store error equal to io.EOF ends the stream silently (io.Copy reports success)", len(got), size, c.Stack.shape()), c)
+			}
+			got = nil
+		case err == io.EOF:
+			res = "w:" + vh.Hex(got)
+		}
+	}
+	if verifying && strings.HasPrefix(res, "w:") && desync.Digest.Sum(got) != id {
+		e.r.Fail("predicate", "consumer/"+f[0]+"-emits-wrong-bytes/"+c03Top(c.Stack),
+			fmt.Sprintf("consumer %s through %s produced %d bytes hashing to %s for index row %s", f[0], c.Stack.shape(), len(got), c03IDStr(desync.Digest.Sum(got))[:12], f[1][:12]), c)
+	}
+	e.r.Dist("consumer:" + f[0] + "/" + strings.SplitN(res, ":", 2)[0])
+	return res
+}
+
 // correspond runs the extracted model on the same case and compares.
 func (e *c03Env) correspond(c *c03Case, leaves []c03Leaf, after map[int]map[string][]byte) error {
 	var objs []string
@@ -965,7 +1052,7 @@ func (e *c03Env) correspond(c *c03Case, leaves []c03Leaf, after map[int]map[stri
 			return fmt.Errorf("oracle keeps asking")
 		}
 		var err error
-		ans, err = e.o.Call("c03.run", c.Stack.oracle(), strings.Join(c.Ops, ";"), strings.Join(objs, ";"),
+		ans, err = e.o.Call("c03.run", c.Stack.oracle(), strings.Join(c03OracleOps(c.Ops), ";"), strings.Join(objs, ";"),
 			strings.Join(acts, ";"), strings.Join(faults, ";"), join(dec), join(comp), join(hash))
 		if err != nil {
 			return err
